@@ -1715,6 +1715,8 @@ class Circuit(Unitary, StateVectorMap, Collection[Operation]):
 
             ValueError: If `point.qudit` is not in `op.location`
         """
+        point = self.normalize_point(point)
+
         if len(self[point].location.intersection(op.location)) == 0:
             raise ValueError("Point's qudit is not in operation's location.")
 
@@ -1807,6 +1809,7 @@ class Circuit(Unitary, StateVectorMap, Collection[Operation]):
         move: bool = False,
     ) -> None:
         """Replace the operation at 'point' with `circuit`."""
+        point = self.normalize_point(point)
         op = self.pop(point)
 
         if circuit.num_qudits != op.num_qudits:
